@@ -296,6 +296,74 @@ func RoundTrip(p *profile.Profile, origin string) (string, bool) {
 	return "", true
 }
 
+// part writers: several goroutines write their own, different profiles at once through sinks that
+// block in the middle of a write (a pipe, a socket, a slow disk); what each sink received must parse
+// back to its profile and equal the bytes of a quiescent write.
+type slowSink struct {
+	buf  bytes.Buffer
+	gate chan struct{}
+}
+
+func (s *slowSink) Write(b []byte) (int, error) {
+	// take the data in two halves with a scheduling point in between, as a pipe reader would
+	h := len(b) / 2
+	s.buf.Write(b[:h])
+	<-s.gate
+	s.buf.Write(b[h:])
+	return len(b), nil
+}
+
+func runWriters(c *harness.Ctx) harness.Result {
+	r := c.Rng
+	n := 3 + r.Intn(6)
+	var ps []*profile.Profile
+	var want [][]byte
+	for i := 0; i < n; i++ {
+		p := GenCodec(r)
+		var b bytes.Buffer
+		if err := p.WriteUncompressed(&b); err != nil {
+			return harness.Result{Verdict: harness.Inconclusive, Detail: "generator: " + err.Error()}
+		}
+		ps, want = append(ps, p), append(want, b.Bytes())
+	}
+	res := harness.Result{NonTrivial: true, Sig: fmt.Sprint("writers ", n, len(want[0]), c.Index), Sample: fmt.Sprintf("%d goroutines, each writing its own profile through a sink that blocks mid-write", n)}
+	sinks := make([]*slowSink, n)
+	gate := make(chan struct{})
+	var wg sync.WaitGroup
+	errs := make([]error, n)
+	for i := range ps {
+		sinks[i] = &slowSink{gate: gate}
+		wg.Add(1)
+		go func(i int) {
+			defer wg.Done()
+			errs[i] = ps[i].WriteUncompressed(sinks[i])
+		}(i)
+	}
+	// release the writers one at a time, so that each finishes its write while others are still
+	// in the middle of theirs (and new serializations start meanwhile)
+	for i := 0; i < n; i++ {
+		if i%2 == 0 {
+			var b bytes.Buffer
+			ps[r.Intn(n)].Copy().WriteUncompressed(&b)
+		}
+		gate <- struct{}{}
+	}
+	wg.Wait()
+	c.Stat("writers.concurrent_writes", int64(n))
+	for i := range ps {
+		if errs[i] != nil {
+			return harness.Violation("writer %d: %v", i, errs[i])
+		}
+		if !bytes.Equal(sinks[i].buf.Bytes(), want[i]) {
+			res.Verdict = harness.Violated
+			_, perr := profile.ParseUncompressed(sinks[i].buf.Bytes())
+			res.Detail = fmt.Sprintf("writer %d of %d: the sink received %d bytes that differ from the %d bytes a quiescent WriteUncompressed of the same profile produces (parse of what it received: %v); every writer wrote its own profile, the sinks block in the middle of a Write", i, n, sinks[i].buf.Len(), len(want[i]), perr)
+			return res
+		}
+	}
+	return res
+}
+
 func runGen(c *harness.Ctx) harness.Result {
 	p := GenCodec(c.Rng)
 	if err := mon.Valid(p); err != nil {
@@ -451,6 +519,33 @@ func runDriver(c *harness.Ctx) harness.Result {
 		}
 		return out, ""
 	}
+	// -output over a file that already exists and is longer than the new report: what is in the
+	// file afterwards is the new report only
+	if c.Index%6 == 0 {
+		path := c.Tmp + "/out.pb.gz"
+		junk := bytes.Repeat([]byte("earlier, longer content of the -output target\n"), 4000+r.Intn(2000))
+		if r.Intn(2) == 0 { // ... e.g. an earlier, bigger profile
+			var jb bytes.Buffer
+			big := p.Copy()
+			for k := 0; k < 6; k++ {
+				big.Sample = append(big.Sample, big.Sample...)
+			}
+			big.Write(&jb)
+			junk = append(jb.Bytes(), junk[:1+r.Intn(len(junk))]...)
+		}
+		os.WriteFile(path, junk, 0o644)
+		fl := &drv.Flags{Bools: map[string]bool{"proto": true, "addresses": true}, Strs: map[string]string{"output": path, "symbolize": "none"}, Args: []string{"p"}}
+		ss := &drv.Session{Flags: fl, Fetch: &drv.MapFetcher{Profiles: map[string]*profile.Profile{"p": p}}, OSWriter: true}
+		if rr := ss.Run(); rr.Panic == "" && rr.Err == nil {
+			c.Stat("driver.output_over_existing_file", 1)
+			data, _ := os.ReadFile(path)
+			if _, err := profile.ParseData(data); err != nil {
+				res.Verdict, res.Detail = harness.Violated, fmt.Sprintf("pprof -proto -output=FILE over an existing, longer FILE (%d bytes before, %d after): the file does not parse as a profile: %v", len(junk), len(data), err)
+				return res
+			}
+		}
+		os.Remove(path)
+	}
 	saved, e := render(p, "proto")
 	if e != "" {
 		c.Stat("driver.errors", 1)
@@ -533,7 +628,7 @@ func init() {
 	harness.Register(&harness.Check{
 		ID:    "C01",
 		Level: "exploration",
-		Rule: "part gen: codec-class generator (sparse/huge/boundary ids, 0..4 sample types, 0..4 elements in every repeated field, extreme int64, empty/NUL/non-UTF8/long strings, partial units); part corpus: every repository testdata file that ParseData accepts (protobuf and legacy). part driver: codec-class profiles saved by the real driver with -proto: the reparsed output must carry the same values per (frames with every attribute incl. columns, labels) as the input (fake mapping for mapping-less profiles excepted), and -raw / -traces of it must equal the direct rendering; every tenth profile is also saved twice from one interactive session (first under divide_by=2, then with default options again) and the second save must carry the input's values. " +
+		Rule: "part gen: codec-class generator (sparse/huge/boundary ids, 0..4 sample types, 0..4 elements in every repeated field, extreme int64, empty/NUL/non-UTF8/long strings, partial units); part writers: 3-8 goroutines each write their own profile through a sink that blocks mid-write while other serializations start; each sink must have received the bytes of a quiescent write. part corpus: every repository testdata file that ParseData accepts (protobuf and legacy). part driver: codec-class profiles saved by the real driver with -proto: the reparsed output must carry the same values per (frames with every attribute incl. columns, labels) as the input (fake mapping for mapping-less profiles excepted), and -raw / -traces of it must equal the direct rendering; every tenth profile is also saved twice from one interactive session (first under divide_by=2, then with default options again) and the second save must carry the input's values. " +
 			"oracle per profile: independent wire decoder view == normalised in-memory view; ParseUncompressed/Parse/ParseData of the written bytes == original, also after the caller's input buffer has been overwritten; gunzip(Write)==WriteUncompressed; Parse of the compressed bytes through readers that deliver one byte / half of the request / data together with EOF; byte fixpoint from the first re-serialisation; Copy equal, pointer-disjoint, mutation-isolated; inputs unmodified; the same object changed in place (mapping cleared/set, line re-pointed, labels removed/replaced, header cleared) and serialized again must round-trip according to its new contents. " +
 			"non-trivial = has at least one sample, location or function; distinct = distinct table-size signature (or file)",
 		Assumptions: []string{"normalisation N: labels with empty string value, and numeric value 0 without unit, are unrepresentable in proto3 and dropped", "NumUnit is absent or as long as NumLabel (documented contract)"},
@@ -541,6 +636,7 @@ func init() {
 			{Name: "gen", Quick: 20000, Thor: 600000, Run: runGen},
 			{Name: "corpus", Quick: nc, Thor: nc, Run: runCorpus},
 			{Name: "driver", Quick: 1500, Thor: 60000, Run: runDriver},
+			{Name: "writers", Quick: 300, Thor: 20000, Run: runWriters},
 		},
 		MinNonTrivial: func(string) int { return 300 },
 		Finish: func(tier string, st map[string]int64) string {
